@@ -224,6 +224,46 @@ func c16Ranges(c *core.Collector, x *Ctx) {
 			c.Sample(map[string]any{"size": size, "chunks": sh, "missing": ref.MissingRanges(uint32(size), sh)})
 		}
 	})
+	// regular structures: EVERY chunk count 1..K of equally sized, equally spaced chunks (chunk sizes 1 B..64 KiB, gaps of 1 byte,
+	// 3 bytes, one chunk), with and without a gap in front and behind, arriving in ascending and in descending order: every
+	// number of missing ranges from 0 to K+1 occurs, not only the ones random cases happen to produce
+	{
+		K := c.N(700, 3000)
+		core.ParallelFor(K, ncpu(), func(ki int) {
+			k := ki + 1
+			for _, cs := range []uint32{1, 2, 7, 1000, 65536} {
+				for _, gap := range []uint32{1, 3, cs} {
+					for lead := uint32(0); lead < 2; lead++ {
+						for trail := uint32(0); trail < 2; trail++ {
+							var chunks []ref.Range
+							pos := lead * gap
+							for q := 0; q < k; q++ {
+								chunks = append(chunks, ref.Range{Off: pos, Len: cs})
+								pos += cs + gap
+							}
+							size := pos - gap + trail*gap
+							if (k+int(cs)+int(gap))%2 == 1 {
+								for a, b := 0, len(chunks)-1; a < b; a, b = a+1, b-1 {
+									chunks[a], chunks[b] = chunks[b], chunks[a]
+								}
+							}
+							run(c16Case{"c16", size, chunks}, true)
+						}
+					}
+				}
+			}
+		})
+		c.Count("chunk_counts_swept_with_regular_structures", int64(K))
+		// every file size 1..5000 with nothing received, everything received in one chunk, and one chunk in the middle
+		core.ParallelFor(5000, ncpu(), func(si int) {
+			size := uint32(si + 1)
+			run(c16Case{"c16", size, nil}, false)
+			run(c16Case{"c16", size, []ref.Range{{Off: 0, Len: size}}}, false)
+			if size >= 3 {
+				run(c16Case{"c16", size, []ref.Range{{Off: size / 3, Len: size / 3}}}, true)
+			}
+		})
+	}
 	c.Sample(map[string]any{"size": 10, "chunks": []ref.Range{{Off: 2, Len: 3}, {Off: 6, Len: 1}}, "missing": ref.MissingRanges(10, []ref.Range{{Off: 2, Len: 3}, {Off: 6, Len: 1}})})
 	c.Floor("exhaustive_max_size", 10)
 	c.Floor("cases_with_offsets_beyond_2^31", 100)
